@@ -1,9 +1,234 @@
-import Okane.Drv.IOUtil
-/-! Driver commands for C16 (stub: replaced when the property's streams are built). -/
-namespace Okane.Drv.C16
+import Okane.Drv.Core
+import Okane.Model.ImportCsv
+/-!
+Driver for C16 (CSV import).  Case line (built by gen/c16.py from its structured configuration, from the
+cells / dates / decimals the harness decoded with the real `csv`, `chrono` and number parser, and from the
+regex matches computed for the case):
 
-def main (args : List String) : IO Unit := do
-  let _ := args
-  pure ()
+  `<id> cfg=<CFG> cells=(ok HEADER REC...) dates=((cell DATE)...) decs=((cell neg mant scale)...) caps=((pat hay (payee?) (code?))...) fund=(FUND?)`
+
+  CFG  = `(cfg account asset|liability (operator?) primary CONV o2n|n2o (fields (key POS)...) (rules RULE...))`
+  CONV = `(conv extract|compute (commodity?) sec|pri 0|1)`
+  POS  = `(index n)` | `(label s)` | `(template SEG...)` | `(bad)`;  SEG = `(lit s)` | `(named key)` | `(idx zeroBased)`
+  RULE = `(rule (or FM...)|(field FM) 0|1 (payee?) (account?) (CONV?))`;  FM = `((field pattern)...)`
+  FUND = `(d y m d) neg mant scale commodity`: the funding transaction put before the import
+
+Output: `<id> import=<(ok TXN...)|(err KIND)|(dberr KIND)|(panic SITE)> inexact=<0|1> proc=<-|(ok BAL)|(err IDX KIND ...)|(panic ..)>`
+-/
+namespace Okane.Drv.C16
+open Okane Okane.Drv Okane.Import Sexp
+
+def decBool : Sexp → Option Bool
+  | .atom "0" => some false
+  | .atom "1" => some true
+  | _ => none
+
+def decDec3 (n m s : Sexp) : Option Dec := do
+  let n ← n.nat?; let m ← m.nat?; let s ← s.nat?
+  pure ⟨n == 1, m, s⟩
+
+def decConv : Sexp → Option Conversion
+  | .list [.atom "conv", am, c, rm, dis] => do
+    let am ← match am with
+      | .atom "extract" => some ConvAmountMode.extract
+      | .atom "compute" => some ConvAmountMode.compute
+      | _ => none
+    let c ← decOpt Sexp.str? c
+    let rm ← match rm with
+      | .atom "sec" => some ConvRateMode.priceOfSecondary
+      | .atom "pri" => some ConvRateMode.priceOfPrimary
+      | _ => none
+    let dis ← decBool dis
+    pure ⟨am, c, rm, dis⟩
+  | _ => none
+
+def decFieldMatcher : Sexp → Option FieldMatcher
+  | .list xs => do
+    let fs ← xs.mapM fun
+      | .list [f, p] => do
+        let f ← f.str?; let f ← Field.ofName? f; let p ← p.str?
+        pure (f, p)
+      | _ => none
+    pure ⟨fs⟩
+  | _ => none
+
+def decMatcher : Sexp → Option Matcher
+  | .list (.atom "or" :: ms) => (ms.mapM decFieldMatcher).map Matcher.or
+  | .list [.atom "field", m] => (decFieldMatcher m).map Matcher.field
+  | _ => none
+
+def decRule : Sexp → Option Rule
+  | .list [.atom "rule", m, pending, payee, account, conv] => do
+    let m ← decMatcher m; let pending ← decBool pending
+    let payee ← decOpt Sexp.str? payee; let account ← decOpt Sexp.str? account
+    let conv ← decOpt decConv conv
+    pure ⟨m, pending, payee, account, conv⟩
+  | _ => none
+
+def decRules : Sexp → Option (List Rule)
+  | .list (.atom "rules" :: rs) => rs.mapM decRule
+  | _ => none
+
+def decSeg : Sexp → Option Seg
+  | .list [.atom "lit", s] => s.str?.map Seg.lit
+  | .list [.atom "named", k] => do
+    let k ← k.str?; let k ← FieldKey.ofName? k
+    pure (.named k)
+  | .list [.atom "idx", i] => i.nat?.map Seg.indexed
+  | _ => none
+
+def decPos : Sexp → Option CsvPos
+  | .list [.atom "index", n] => n.nat?.map CsvPos.index
+  | .list [.atom "label", s] => s.str?.map CsvPos.label
+  | .list (.atom "template" :: segs) => (segs.mapM decSeg).map CsvPos.template
+  | .list [.atom "bad"] => some .badTemplate
+  | _ => none
+
+def decOrder : Sexp → Option RowOrder
+  | .atom "o2n" => some .oldToNew
+  | .atom "n2o" => some .newToOld
+  | _ => none
+
+def decCfg : Sexp → Option CsvCfg
+  | .list [.atom "cfg", account, at_, op, primary, conv, order, .list (.atom "fields" :: fs), rules] => do
+    let account ← account.str?
+    let at_ ← match at_ with
+      | .atom "asset" => some AccountType.asset
+      | .atom "liability" => some AccountType.liability
+      | _ => none
+    let op ← decOpt Sexp.str? op
+    let primary ← primary.str?
+    let conv ← decConv conv
+    let order ← decOrder order
+    let fs ← fs.mapM fun
+      | .list [k, p] => do
+        let k ← k.str?; let k ← FieldKey.ofName? k; let p ← decPos p
+        pure (k, p)
+      | _ => none
+    let rules ← decRules rules
+    pure ⟨account, at_, op, primary, conv, order, fs, rules⟩
+  | _ => none
+
+def decCells : Sexp → Option (List String × List (List String))
+  | .list (.atom "ok" :: hdr :: recs) => do
+    let h ← decList Sexp.str? hdr
+    let rs ← recs.mapM (decList Sexp.str?)
+    pure (h, rs)
+  | _ => none
+
+def decDateTable : Sexp → Option (List (String × Date))
+  | .list xs => xs.mapM fun
+    | .list [c, d] => do
+      let c ← c.str?; let d ← decDate d
+      pure (c, d)
+    | _ => none
+  | _ => none
+
+def decDecTable : Sexp → Option (List (String × Dec))
+  | .list xs => xs.mapM fun
+    | .list [c, n, m, s] => do
+      let c ← c.str?; let d ← decDec3 n m s
+      pure (c, d)
+    | _ => none
+  | _ => none
+
+/-- regex matches computed outside: `(pattern haystack (payee?) (code?))` -/
+def decCaps : Sexp → Option (List ((String × String) × Matched))
+  | .list xs => xs.mapM fun
+    | .list [p, h, payee, code] => do
+      let p ← p.str?; let h ← h.str?
+      let payee ← decOpt Sexp.str? payee; let code ← decOpt Sexp.str? code
+      pure ((p, h), ⟨payee, code⟩)
+    | _ => none
+  | _ => none
+
+def capsFn (t : List ((String × String) × Matched)) : Captures := fun pat hay =>
+  (t.find? fun e => e.1.1 == pat && e.1.2 == hay).map (·.2)
+
+def tableFn {β} (t : List (String × β)) (s : String) : Option β := (t.find? fun e => e.1 == s).map (·.2)
+
+/-- the funding transaction put before the import output -/
+def fundTxn (account : String) (date : Date) (b : Dec) (commodity : String) : Transaction :=
+  { date := date, clear := .cleared, payee := "fund",
+    posts := [ { account := account, amount := some { amount := .amt b.toPDec commodity } },
+               { account := "Equity:Opening", amount := some { amount := .amt b.negate.toPDec commodity } } ] }
+
+def decFund : Sexp → Option (Option (Date × Dec × String))
+  | .list [] => some none
+  | .list [d, n, m, s, c] => do
+    let d ← decDate d; let v ← decDec3 n m s; let c ← c.str?
+    pure (some (d, v, c))
+  | _ => none
+
+def doubleEntries (account : String) : List Txn → Outcome ImportErr (List Transaction)
+  | [] => .ok []
+  | t :: rest =>
+    match t.toDoubleEntry account with
+    | .ok x =>
+      match doubleEntries account rest with
+      | .ok xs => .ok (x :: xs)
+      | .err e => .err e
+      | .panic s => .panic s
+      | .fuelOut => .fuelOut
+    | .err e => .err e
+    | .panic s => .panic s
+    | .fuelOut => .fuelOut
+
+/-- model book-keeping over `fund :: entries`, printed canonically -/
+def showProc (entries : List Entry) : String :=
+  match process entries with
+  | .ok st =>
+    "(ok " ++ (Sexp.list (sortBalance st.bal |>.map fun kv =>
+      .list [mkStr kv.1, .list (kv.2.map fun cv => .list [mkStr cv.1, encRat cv.2])])).toStr ++ ")"
+  | .err (i, e) =>
+    "(err " ++ toString i ++ " " ++ " ".intercalate ((bkErrDesc e).1.map Sexp.toStr) ++
+      (match (bkErrDesc e).2 with
+       | none => ""
+       | some (a, d) => " " ++ (encAmountR a).toStr ++ (match d with | none => "" | some d => " " ++ (encAmountR d).toStr)) ++ ")"
+  | .panic s => "(panic " ++ Sexp.encode s ++ ")"
+  | .fuelOut => "(fuelOut)"
+
+/-- shared tail: print the import result and run the model's book-keeping on it -/
+def report (id : String) (account : String) (fund : Option (Date × Dec × String))
+    (r : Outcome ImportErr (List Txn)) (inexact : Bool) : String :=
+  let flag := if inexact then "1" else "0"
+  match r with
+  | .err e => s!"{id} import=(err {e.kind}) inexact={flag} proc=-"
+  | .panic s => s!"{id} import=(panic {Sexp.encode s}) inexact={flag} proc=-"
+  | .fuelOut => s!"{id} import=(fuelOut) inexact={flag} proc=-"
+  | .ok txns =>
+    match doubleEntries account txns with
+    | .ok ts =>
+      let imp := "(ok" ++ String.join (ts.map fun t => " " ++ (encTxn t).toStr) ++ ")"
+      let proc := match fund with
+        | none => "-"
+        | some (d, b, c) => showProc (Entry.txn (fundTxn account d b c) :: ts.map Entry.txn)
+      s!"{id} import={imp} inexact={flag} proc={proc}"
+    | .err e => s!"{id} import=(dberr {e.kind}) inexact={flag} proc=-"
+    | .panic s => s!"{id} import=(panic {Sexp.encode s}) inexact={flag} proc=-"
+    | .fuelOut => s!"{id} import=(fuelOut) inexact={flag} proc=-"
+
+def step (line : String) : String :=
+  let (id, fs) := splitFields line
+  match field fs "cfg", field fs "cells", field fs "dates", field fs "decs", field fs "caps", field fs "fund" with
+  | some cfg, some cells, some dates, some decs, some caps, some fund =>
+    match (Sexp.parse cfg).bind decCfg, (Sexp.parse cells).bind decCells, (Sexp.parse dates).bind decDateTable,
+          (Sexp.parse decs).bind decDecTable, (Sexp.parse caps).bind decCaps, (Sexp.parse fund).bind decFund with
+    | some cfg, some (hdr, recs), some dates, some decs, some caps, some fund =>
+      let env : CsvEnv := ⟨tableFn decs, tableFn dates, capsFn caps⟩
+      let r := csvImportFlagged env cfg hdr recs
+      let inexact := match r with
+        | .ok ts => ts.any (·.2)
+        | _ => false
+      report id cfg.account fund (r.map' (List.map Prod.fst)) inexact
+    | none, _, _, _, _, _ => s!"{id} undecodable cfg"
+    | _, none, _, _, _, _ => s!"{id} undecodable cells"
+    | _, _, none, _, _, _ => s!"{id} undecodable dates"
+    | _, _, _, none, _, _ => s!"{id} undecodable decs"
+    | _, _, _, _, none, _ => s!"{id} undecodable caps"
+    | _, _, _, _, _, none => s!"{id} undecodable fund"
+  | _, _, _, _, _, _ => s!"{id} bad-case"
+
+def main (_args : List String) : IO Unit := forEachLine step
 
 end Okane.Drv.C16
